@@ -196,3 +196,36 @@ Theorem exit_returns_solo_witness :
   thr s' (c_loop C) = Done /\ returned s' = true.
 Proof. exact C14.ProofsSolo.exit_returns_solo_example. Qed.
 Print Assumptions exit_returns_solo_witness.
+
+(* C14 — bounded interference for exit_returns (both repairs applied): along ANY continuation
+   schedule of a reachable state with an exit pending and the loop thread ranked, whose foreign
+   steps keep the loop thread ranked (keeps_ranked; a foreign step that does not write to_exit
+   does: ProofsSolo2.foreign_keeps_ranked - a second muggle_evloop_exit from another thread, which
+   turns EXIT back into WAKE, may not), exit pending and ranked are preserved and
+   rank at the end + enabled loop-thread steps <= rank at the start + 2 * enabled foreign steps:
+   run() cannot go on for ever against finitely many foreign steps. *)
+From MV Require C14.ProofsSolo2.
+Theorem exit_returns_bounded_interference : forall C pre post, c_fix_exit C = true -> c_fix_add C = true ->
+  let s := exec sys (step C) init pre in
+  to_exit s <> 0 -> ranked C s (thr s (c_loop C)) = true ->
+  C14.ProofsSolo2.keeps_ranked C s post = true ->
+  let s' := exec sys (step C) s post in
+  to_exit s' <> 0 /\ ranked C s' (thr s' (c_loop C)) = true /\
+  rank C s' (thr s' (c_loop C)) + C14.ProofsSolo2.loop_steps C s post
+    <= rank C s (thr s (c_loop C)) + 2 * C14.ProofsSolo2.foreign_steps C s post /\
+  C14.ProofsSolo2.loop_steps C s post <= rank C s (thr s (c_loop C)) + 2 * C14.ProofsSolo2.foreign_steps C s post.
+Proof. exact C14.ProofsSolo2.bounded_interference_all. Qed.
+Print Assumptions exit_returns_bounded_interference.
+
+Theorem exit_returns_bounded_interference_witness :
+  let C := cfg_exit_before_run true in
+  let pre := firstn 10 sched_exit_before_run in
+  let post := [(1,0);(0,0);(1,0);(0,0);(0,0);(0,0)] ++ repeat (1,0) 20 in
+  let s := exec sys (step C) init pre in
+  let s' := exec sys (step C) s post in
+  c_fix_exit C = true /\ c_fix_add C = true /\ to_exit s <> 0 /\ ranked C s (thr s (c_loop C)) = true /\
+  C14.ProofsSolo2.keeps_ranked C s post = true /\ rank C s (thr s (c_loop C)) = 122 /\
+  C14.ProofsSolo2.foreign_steps C s post = 2 /\ C14.ProofsSolo2.loop_steps C s post = 12 /\
+  thr s' (c_loop C) = Done /\ returned s' = true.
+Proof. exact C14.ProofsSolo2.bounded_interference_example. Qed.
+Print Assumptions exit_returns_bounded_interference_witness.
